@@ -73,6 +73,7 @@ func vfViewsAgree(w *vfWorld, keys [][]byte) {
 // vfC08_History: a script of management operations (digits) over users {a,b} and symbolic keys.
 //   1 add(a,K1)  2 add(b,K2)  3 update(a,K3)  4 delete(a)  5 delete(b)  6 update(b,K3)
 //   7 reload after the file was replaced by {a:K4}      8 add(b,K1)
+//   9 reload after the file was put back to its initial content (byte-identical: an empty store)
 func vfC08_History() {
 	script := vfCase("script")
 	path := vfStorePath()
@@ -104,6 +105,20 @@ func vfC08_History() {
 			vfAssert(w.s.LoadFromFile() == nil, "well-formed store file reloads")
 		case 8:
 			_ = w.s.AddCredential("b", k1)
+		case 9:
+			vfWriteStore(path, nil, nil)
+			vfAssert(w.s.LoadFromFile() == nil, "well-formed store file reloads")
+		}
+		if op == 7 || op == 9 {
+			// after a reload the server serves exactly the users of the file
+			ca, hasA := w.s.GetCredential("a")
+			_, hasB := w.s.GetCredential("b")
+			vfAssert(!hasB, "after a reload only the file's users are listed")
+			if op == 7 {
+				vfAssert(hasA && bytes.Equal(ca.UPSK, k4), "after a reload the file's users are listed with the file's keys")
+			} else {
+				vfAssert(!hasA, "after a reload of an empty store no users are listed")
+			}
 		}
 		vfViewsAgree(w, keys)
 	}
